@@ -6,6 +6,7 @@ from typing import Dict, List, Optional, Set, Tuple
 
 from ..cfg import CFG, Node
 from ..core import AnalysisError, Cls, Fn, Repo, call_name, calls_in, const_value, dotted, get_kw, last_attr, short, walk_no_nested
+from ..pat import has
 from ..report import Check
 from ..terms import Atom, Poly, TermBuilder, expand_phi, mentions, single_atom, walk_atoms
 
@@ -321,9 +322,9 @@ def _policy_gradient(ck: Check, repo: Repo) -> None:
 def _dqn_wrapper(ck: Check, repo: Repo) -> None:
     fn = repo.fn("agilerl.algorithms.dqn", "DQN.get_action")
     src = ast.unparse(fn.node)
-    ck.ob("C14.1", fn, fn.node, "action_mask = torch.ones((batch_size, self.action_dim), device=device)" in src, "DQN: no mask means every action is legal (mask of ones)",
+    ck.ob("C14.1", fn, fn.node, has(src, '$action_mask = torch.ones(($batch_size, self.action_dim), device=$device)'), "DQN: no mask means every action is legal (mask of ones)",
           construct="DQN.get_action default mask")
-    ck.ob("C14.1", fn, fn.node, "self._get_action(torch_obs, epsilon, action_mask)" in src, "DQN: the mask reaches the action selection", construct="DQN.get_action passes mask")
+    ck.ob("C14.1", fn, fn.node, has(src, 'self._get_action($torch_obs, $epsilon, $action_mask)'), "DQN: the mask reaches the action selection", construct="DQN.get_action passes mask")
     inner = repo.fn("agilerl.algorithms.dqn", "DQN._get_action")
     s2 = ast.unparse(inner.node)
     ck.ob("C14.1", inner, inner.node, "torch.where(use_policy, masked_policy_actions, masked_random_actions)" in s2, "DQN: both the greedy and the exploratory candidate are masked choices",
